@@ -168,7 +168,7 @@ pub trait DynIter {
     fn rfold_rest(self: Box<Self>) -> Option<Vec<u128>> {
         None
     }
-    /// `Iterator::min_by_key` / `max_by_key` of the rest (the provided methods every `min`/`max` flavour shares)
+    /// `Iterator::min()` / `max()` of the rest (the element order agrees with the order of the converted values)
     fn min_rest(self: Box<Self>) -> Option<u128>;
     fn max_rest(self: Box<Self>) -> Option<u128>;
 }
@@ -201,14 +201,10 @@ macro_rules! dyn_iter_common {
             self.0.last().map(self.1)
         }
         fn min_rest(self: Box<Self>) -> Option<u128> {
-            let conv = self.1;
-            self.0.min_by_key(|x| conv(x.clone()))
-                .map(conv)
+            self.0.min().map(self.1)
         }
         fn max_rest(self: Box<Self>) -> Option<u128> {
-            let conv = self.1;
-            self.0.max_by_key(|x| conv(x.clone()))
-                .map(conv)
+            self.0.max().map(self.1)
         }
     };
 }
@@ -216,7 +212,7 @@ macro_rules! dyn_iter_common {
 struct FwdOnly<I: Iterator>(I, fn(I::Item) -> u128);
 impl<I: Iterator> DynIter for FwdOnly<I>
 where
-    I::Item: Clone,
+    I::Item: Clone + Ord,
 {
     fn next_back(&mut self) -> Option<Option<u128>> {
         None
@@ -233,7 +229,7 @@ where
 struct FwdExact<I: Iterator>(I, fn(I::Item) -> u128);
 impl<I: Iterator + ExactSizeIterator> DynIter for FwdExact<I>
 where
-    I::Item: Clone,
+    I::Item: Clone + Ord,
 {
     fn next_back(&mut self) -> Option<Option<u128>> {
         None
@@ -250,7 +246,7 @@ where
 struct Full<I: Iterator>(I, fn(I::Item) -> u128);
 impl<I: Iterator + ExactSizeIterator + DoubleEndedIterator> DynIter for Full<I>
 where
-    I::Item: Clone,
+    I::Item: Clone + Ord,
 {
     fn next_back(&mut self) -> Option<Option<u128>> {
         Some(self.0.next_back().map(self.1))
